@@ -6,6 +6,7 @@ NINE = ["df0", "df4", "df5", "df11", "df16", "tc11", "df18", "df20", "df21"]
 
 class C03(PropBase):
     id = "C03"
+    shown_columns = ('ICAO',)
     corr_fields = ['df']
     lean_modules = ["SqModel.Props.C03", "SqModel.Proofs.BridgeBits", "SqModel.Proofs.BridgeTable"]
     extractors = ["trans_bits", "crc", "trans"]
